@@ -1,8 +1,11 @@
 /-
 Specification side of C28 / C29: what the properties demand of a hostmap state and of one transition,
 stated over the observable maps only (independent of how the model computes them).  Everything here is a
-decidable check returning the *class* of the first violated clause, so that the same definitions serve as
-the driver's oracle on the implementation's dumps and as the statements proved about the model.
+decidable check returning the *class* of the first violated clause: it is the driver's oracle on the
+implementation's dumps.  The Prop-level counterpart proved about the model for all histories is `Inv`
+(`Lemmas/HostMapInv.lean`) with the theorems of `Props/C28.lean` / `Props/C29.lean`; the clauses correspond one to one
+(`invCheck` ↔ `Core none` + `Cap`, `deleteCheck` ↔ `delete_erases` / `delete_exact` / `delete_final_iff`,
+`stepCheck` ↔ `no_resurrection` / `release_only_by_owner` / `remote_index_only_by_owner`).
 -/
 import Nebula.Model.HostMap
 
